@@ -270,8 +270,8 @@ PROPS = {
         "technique": "property-based testing of schedules: deterministic instruction-level scheduler (x86 trap flag, logical threads as contexts in one OS thread), "
                      "rapidcheck-generated and shrinkable schedules, plus generated rounds of simultaneous first calls by real threads; history invariants as oracle",
         "rule": "FIPS_MODE build. rapidcheck cases: 1..5 logical threads, each making its first call through isal_self_tests() or through a cheap approved entry "
-                "(isal_sha1_ctx_mgr_init) and then a second isal_self_tests(); self-test outcome in {pass, fail}; the wrapped self-test bodies spin 0..40 yield "
-                "points; schedule = either a byte string of (thread, burst length) decisions followed by a fair round-robin tail, or a run-to-yield schedule "
+                "(isal_sha1_ctx_mgr_init) and then a second isal_self_tests(); self-test outcome in {pass, fail}; the link-time wrappers of the two self-test groups run the real body (one atomic "
+                "step), then spin 0..40 yield points and overlay the generated outcome; schedule = either a byte string of (thread, burst length) decisions followed by a fair round-robin tail, or a run-to-yield schedule "
                 "with 0..4 generated preemption points. Every instruction of the real check/claim/run/publish code is single-stepped and the generated schedule "
                 "decides which logical thread executes the next instruction. Oracle (history invariants): the AES and SHA self tests are entered exactly once; no "
                 "thread returns success, and the wrapped approved entry does not start its work, before the self tests have finished and the verdict is published; "
